@@ -2762,13 +2762,14 @@ class PGPKeyring(collections_abc.Container, collections_abc.Iterable, collection
 
         # this is an alias that already exists, but points to a key that is not already referenced by it
         else:
-            adepth = len(self._aliases) - len([None for m in self._aliases if alias in m]) - 1
-            # all alias maps have this alias, so increase total depth by 1
-            if adepth == -1:
+            # put the new link into any layer that does not hold this alias yet (the layers are re-sorted right after);
+            # if every layer holds it already, increase total depth by 1
+            free = [depth for depth, m in enumerate(self._aliases) if alias not in m]
+            if not free:
                 self._aliases.appendleft({})
-                adepth = 0
+                free = [0]
 
-            self._aliases[adepth][alias] = pkid
+            self._aliases[free[-1]][alias] = pkid
             self._sort_alias(alias)
 
     def _add_key(self, pgpkey):
